@@ -259,6 +259,8 @@ theorem buildOperation_post (env : Env) (op : OpIn) (st : Schemas) (so : List B)
       obtain ⟨b1, b2, b3⟩ := opBody_post env (op.req.bind (introspect env)) _ p2
       split at h
       · cases h
+      split at h
+      · cases h
       next rr heq =>
         simp only [Except.ok.injEq, Prod.mk.injEq] at h
         obtain ⟨rfl, rfl, rfl⟩ := h
